@@ -313,6 +313,9 @@ def footprint(t):
     return total
 
 
+LIVE_CAP = 10 ** 9
+
+
 def untracked_loop(mode, length):
     import numpy as np
     import synapgrad as sg
@@ -361,6 +364,26 @@ def untracked_loop(mode, length):
         del w, g, refs
         gc.collect()
         return res
+    if mode == "no_grad_logging":
+        # the logging idiom: every step builds a TRACKED graph (a parameter is involved), then -- inside no_grad -- derives small untracked results from its output and
+        # keeps THEM (a list of logged values); the step's graph must be collectable although the logged values stay
+        import synapgrad.functional as F
+        p = sg.tensor([[1.0, 2.0, 3.0], [0.5, -1.0, 2.0]], requires_grad=True)
+        logged = []
+        for t in range(length):
+            h = F.exp(p * (0.001 * (t % 7))) + p          # tracked: shape (2, 3), no singleton dimension
+            refs.append(weakref.ref(h))
+            with sg.no_grad():
+                logged.append((h.squeeze(), h.squeeze(1), h.reshape((2, 3)), h.flatten(), F.unbind(h, 0)[1], h[0], h.transpose(0, 1), h.sum(), h.detach())[t % 9])
+            del h
+        gc.collect()
+        alive = sum(1 for r in refs if r() is not None)
+        bad_flags = any(v.requires_grad or v._grad_fn is not None for v in logged)
+        res = {"mode": mode, "loop": length, "operands_alive": alive, "live_tensors_added": min(live_tensors() - base - len(logged), LIVE_CAP), "result_requires_grad": bool(bad_flags),
+               "result_has_grad_fn": bool(bad_flags), "value_ok": True}
+        del logged, refs
+        gc.collect()
+        return res
     if mode.endswith("_views"):
         # layout operations (results that may share memory with their operand) in every step: an untracked result must not keep its operand -- or anything else of the step -- alive
         import synapgrad.functional as F
@@ -377,6 +400,7 @@ def untracked_loop(mode, length):
                 w = F.movedim(F.movedim(w, 0, 1), 1, 0)
                 w = F.transpose(F.transpose(w, 0, 1), 1, 0)
                 w = F.reshape(F.flatten(w), (2, 3))
+                w = w.squeeze().squeeze(1).reshape((2, 3)).flatten(1, 1).movedim(0, 0).transpose(1, 1)        # method forms with arguments for which they are the identity
         gc.collect()
         alive = sum(1 for r in refs if r() is not None)
         res = {"mode": mode, "loop": length, "operands_alive": alive, "live_tensors_added": live_tensors() - base, "result_requires_grad": bool(w.requires_grad),
